@@ -1,9 +1,104 @@
 (* C10 property theorems. This file contains only statements closed by
-   [exact lemma] and Print Assumptions. *)
-From V Require Import Common.Base C10.BitSet C10.BitSetProofs.
+   [exact lemma] and Print Assumptions.  [split g = Some r] excludes only fuel
+   exhaustion of the model (never observed; every correspondence case is Some).
+   [deps_cover g] is the assumption on the linker's input named in the config:
+   a symbol used or exported across files is backed by a part dependency. *)
+From V Require Import Common.Base C10.BitSet C10.Renamer C10.Split
+  C10.BitSetProofs C10.RenamerProofs C10.ListLemmas C10.SplitProofs.
+From Coq Require Import Relations.
 
-(* HasBit after SetBit, every bit set of every size *)
+(* helpers.BitSet: HasBit after SetBit, every bit set of every size *)
 Theorem bitset_set_has : forall bs i j, (i < 8 * length bs)%nat ->
   HasBit (SetBit bs i) j = (Nat.eqb i j || HasBit bs j).
 Proof. exact HasBit_SetBit. Qed.
 Print Assumptions bitset_set_has.
+
+(* chunk keys: bit sets for n entry points are equal as strings iff they have the same members *)
+Theorem bitset_string_injective : forall n a b, good_bits n a -> good_bits n b ->
+  (String a = String b <-> forall j, (j < n)%nat -> HasBit a j = HasBit b j).
+Proof. exact bitset_string_injective_lemma. Qed.
+Print Assumptions bitset_string_injective.
+
+(* every live reachable file is in exactly one chunk, and chunks hold nothing else:
+   with ES module semantics a module body therefore exists once per program *)
+Theorem chunks_partition : forall g r, split g = Some r ->
+  let a := r_analysis r in
+  (forall f, In f (a_order a) -> is_live a f = true ->
+     exists i, (i < length (a_chunks a))%nat /\ In f (c_files (nth i (a_chunks a) dchunk)) /\
+       forall j, (j < length (a_chunks a))%nat -> In f (c_files (nth j (a_chunks a) dchunk)) -> j = i) /\
+  (forall c f, In c (a_chunks a) -> In f (c_files c) -> In f (a_order a) /\ is_live a f = true).
+Proof. exact chunks_partition_all. Qed.
+Print Assumptions chunks_partition.
+
+(* a static cross-chunk import goes to a chunk whose entry-point set strictly
+   contains the importer's *)
+Theorem import_edge_superset : forall g r i j, split g = Some r -> deps_cover g ->
+  let a := r_analysis r in
+  sedge (r_cross r) i j ->
+  (i < length (a_chunks a))%nat /\ (j < length (a_chunks a))%nat /\
+  (forall b, (b < length (a_entries a))%nat ->
+     HasBit (c_bits (nth i (a_chunks a) dchunk)) b = true -> HasBit (c_bits (nth j (a_chunks a) dchunk)) b = true) /\
+  c_bits (nth i (a_chunks a) dchunk) <> c_bits (nth j (a_chunks a) dchunk).
+Proof. exact import_edge_superset_all. Qed.
+Print Assumptions import_edge_superset.
+
+(* hence the static import graph of the chunks has no cycle *)
+Theorem static_chunk_graph_acyclic : forall g r, split g = Some r -> deps_cover g ->
+  forall i, ~ clos_trans nat (sedge (r_cross r)) i i.
+Proof. exact static_chunk_graph_acyclic_all. Qed.
+Print Assumptions static_chunk_graph_acyclic.
+
+(* and the three-colour check of enforceNoCyclicChunkImports never reports an error *)
+Theorem enforce_never_fires : forall g r, split g = Some r -> deps_cover g ->
+  enforce_cycle_error (r_cross r) = false.
+Proof. exact enforce_never_fires_all. Qed.
+Print Assumptions enforce_never_fires.
+
+(* an entry chunk statically imports every chunk holding a file reachable from
+   its entry point (all of them are evaluated before the entry's own code) *)
+Theorem entry_loads_all_reachable : forall g r ci oi bit e f, split g = Some r ->
+  let a := r_analysis r in
+  (ci < length (a_chunks a))%nat -> (oi < length (a_chunks a))%nat ->
+  c_entry (nth ci (a_chunks a) dchunk) = Some (bit, e) ->
+  In f (c_files (nth oi (a_chunks a) dchunk)) ->
+  path (split_succ g (a_entries a)) (is_live a) e f ->
+  oi = ci \/ sedge (r_cross r) ci oi.
+Proof. exact entry_loads_all_reachable_all. Qed.
+Print Assumptions entry_loads_all_reachable.
+
+(* every item of a generated import statement is exported by the target chunk under that alias *)
+Theorem exports_exist : forall g r ci im al, split g = Some r ->
+  let a := r_analysis r in
+  (ci < length (a_chunks a))%nat ->
+  In im (x_imports (nth ci (r_cross r) dcross)) -> i_dynamic im = false -> In al (i_items im) ->
+  (i_chunk im < length (a_chunks a))%nat /\ i_chunk im <> ci /\
+  exists s, In (s, al) (x_exports (nth (i_chunk im) (r_cross r) dcross)).
+Proof. exact exports_exist_all. Qed.
+Print Assumptions exports_exist.
+
+(* the export aliases of a chunk are pairwise distinct (renamed and minified) *)
+Theorem export_aliases_distinct : forall g r oi, split g = Some r ->
+  (oi < length (a_chunks (r_analysis r)))%nat ->
+  NoDup (map snd (x_exports (nth oi (r_cross r) dcross))).
+Proof. exact export_aliases_distinct_all. Qed.
+Print Assumptions export_aliases_distinct.
+
+(* ExportRenamer.NextRenamedName never hands out the same name twice *)
+Theorem export_renamer_injective : forall names l, rename_all names = Some l ->
+  NoDup l /\ length l = length names.
+Proof. exact rename_all_nodup. Qed.
+Print Assumptions export_renamer_injective.
+
+(* NumberToMinifiedName is injective (NextMinifiedName never repeats) *)
+Theorem minified_name_injective : forall i j, minified_name i = minified_name j -> i = j.
+Proof. exact minified_name_inj. Qed.
+Print Assumptions minified_name_injective.
+
+(* no chunk imports from an entry chunk (entry chunks export only the entry's own
+   exports); partial: the importing chunk's entry-point set is assumed non-empty *)
+Theorem entry_chunk_no_importers_partial : forall g r i j bit e, split g = Some r -> deps_cover g ->
+  let a := r_analysis r in
+  sedge (r_cross r) i j -> c_entry (nth j (a_chunks a) dchunk) = Some (bit, e) ->
+  (exists b, (b < length (a_entries a))%nat /\ HasBit (c_bits (nth i (a_chunks a) dchunk)) b = true) -> False.
+Proof. exact entry_chunk_no_importers_partial_all. Qed.
+Print Assumptions entry_chunk_no_importers_partial.
